@@ -7,6 +7,8 @@ K2  once classified, the iteration ends without any path to store()/setGroupList
 K3  nothing is stored and no error raised for a line unless the comment test said "no".
 K4  the comment set the parser works with is never empty: an empty set given by the caller is replaced by the default
     at the one place every file passes (the gate), not in some of the entry points.
+K6  a further physical line is read in a round only after the comment test said no.   K7  lines are read whole (getline).
+K8  the merge takes no decision on an entry's comments.
 K5  comment text never flows into a key, a value or a section name (nor the other way round): every string written into
     field F of an entry by the parser unit stems from field F of an entry / the parameter or pending buffer of that kind."""
 from sa.ast import render
@@ -216,6 +218,60 @@ def run(prog, ctx):
                  "non-blank character is a comment character is treated as data (e.g. appended to the previous value)" % what,
                  key="comment-test-bypassed", path=cfg.describe_path(wp)[-8:])
     ctx.floor("C05 statements recording a before-key comment", len(recs), 1)
+    # ---- K6 physical lines are not glued to a comment line: a second line read inside one round of the line loop (line continuation,
+    # look-ahead) is reachable only after the comment test on the FIRST NON-BLANK character of the current line said "no"
+    readers = [c for c in f.calls(("getline", "getdelim", "fgets")) if c.within(L.loop) and c is not L.getline]
+    for c in readers:
+        cb = cfg.block_of(c)
+
+        def no_comment_here(lit, b, i):
+            if lit is None:
+                return False
+            neg = lit.negated()
+            return classify(neg) == "good"
+        ok6, cut6 = cfg.all_paths_cut(cb, no_comment_here, start=cfg.block_of(L.getline))
+        raw = False
+        for (b, i, s2) in cfg.edges():
+            lit = cfg.edge_lit(b, i)
+            if lit is None:
+                continue
+            t = lit.atom
+            if ("strchr(%s" % comment_param) in t and ("*" + L.linebuf in t or "**" in t or L.linebuf + "[0]" in t) and cfg.dominates(b, cb):
+                raw = True
+        inst = "a further line is read only after the comment test on the current one said no"
+        if ok6 and cut6:
+            ctx.ok("K6", inst, c.where, "every path to this %s() carries `*%s not in %s`" % (c.j["callee"], name, comment_param))
+        else:
+            ctx.fail("K6", inst, c.where,
+                     "another physical line is read and appended within the round%s: a comment line (e.g. an indented one ending in a backslash) swallows the "
+                     "line behind it, and the key on that line disappears" % (
+                         " under a comment test on the unstripped buffer" if raw else " without the first-non-blank comment test in front"), key="line-glued-to-comment")
+    # ---- K7 a physical line is delivered whole: the reader is getline()/getdelim(); with fgets() into a buffer of fixed size the
+    # rest of an over-long comment line comes back as a "line" of its own that does not start with a comment character
+    rdr = L.getline.j.get("callee")
+    if rdr in ("getline", "getdelim"):
+        ctx.ok("K7", "a line of any length is read in one piece", L.getline.where, "%s() grows the buffer to the line" % rdr)
+    else:
+        ctx.fail("K7", "a line of any length is read in one piece", L.getline.where,
+                 "%s() delivers at most a buffer-full: the tail of a longer comment line is handed to the classification as a new line and parsed as a key, a "
+                 "continuation or an error" % rdr, key="line-in-pieces")
+    # ---- K8 whether an entry carries comments decides nothing in the merge: the same value comes out with or without comment lines
+    for hn in ("merge_existing_groups", "add_new_groups", "econf_mergeFiles"):
+        if not prog.has_fn(hn):
+            continue
+        h = prog.fn(hn)
+        hcfg = h.cfg
+        bad8 = None
+        for (b, i, s2) in hcfg.edges():
+            lit = hcfg.edge_lit(b, i)
+            if lit is not None and ("comment_before_key" in lit.atom or "comment_after_value" in lit.atom):
+                bad8 = bad8 or hcfg.blocks[b].cond
+        if bad8 is not None:
+            ctx.fail("K8", "%s: no decision depends on an entry's comments" % hn, bad8.where,
+                     "the merge branches on `%s`: an entry preceded by a comment line is merged along another path than the same entry without it (e.g. its empty "
+                     "value comes out NULL instead of \"\")" % render(bad8)[:70], key="merge-depends-on-comments:%s" % hn)
+        else:
+            ctx.ok("K8", "%s: no decision depends on an entry's comments" % hn, h.where, "no branch on comment_before_key / comment_after_value")
     k4(prog, ctx)
     k5(prog, ctx, L)
 
